@@ -116,6 +116,64 @@ func ptrDom(u int) *dom[*T] {
 	return newDom("ptr", univ, desc)
 }
 
+// ---------- comparator shapes for the tree-backed containers ----------
+// A user comparator only has to return <0 / 0 / >0; the built-in ones return -1/0/+1, user ones typically a-b, (b-a)*k, ...
+// coq is the cmpsel term of C09/Check.v: its sign on the key NUMBERS is the sign of f on the keys (ordered key types are
+// numbered in ascending key order).
+type cmpShape[K any] struct {
+	name, coq string
+	f         bcomparator.Comparator[K]
+}
+
+func intShapes() []cmpShape[int] {
+	return []cmpShape[int]{
+		{"a-b", "(CLin 1)", func(a, b int) int { return a - b }},
+		{"b-a", "(CLin (-1))", func(a, b int) int { return b - a }},
+		{"(b-a)*7", "(CLin (-7))", func(a, b int) int { return (b - a) * 7 }},
+		{"(a-b)*3", "(CLin 3)", func(a, b int) int { return (a - b) * 3 }},
+	}
+}
+func strShapes() []cmpShape[string] {
+	return []cmpShape[string]{
+		{"5*Compare", "(CLin 5)", func(a, b string) int { return 5 * strings.Compare(a, b) }},
+		{"-2*Compare", "(CLin (-2))", func(a, b string) int { return -2 * strings.Compare(a, b) }},
+	}
+}
+func ptrShapes() []cmpShape[*T] {
+	return []cmpShape[*T]{
+		{"a.X-b.X", "(CLin 1)", func(a, b *T) int { return a.X - b.X }},
+		{"(b.X-a.X)*7", "(CLin (-7))", func(a, b *T) int { return (b.X - a.X) * 7 }},
+	}
+}
+
+// int universe for the subtracting comparators: no overflow, gaps of varying size (so the magnitudes vary)
+func smallIntDom(rng *vhlib.Rng, u int) *dom[int] {
+	var univ []int
+	x := rng.Intn(4000) - 2000
+	for i := 0; i < u; i++ {
+		univ = append(univ, x)
+		x += 1 + rng.Intn(60)
+	}
+	desc := make([]string, len(univ))
+	for i, k := range univ {
+		desc[i] = fmt.Sprint(k)
+	}
+	return newDom("int", univ, desc)
+}
+
+// pointer universe ordered by a struct field: distinct field values, numbered in field order
+func ptrFieldDom(rng *vhlib.Rng, u int) *dom[*T] {
+	var univ []*T
+	var desc []string
+	x := rng.Intn(100) - 50
+	for i := 0; i < u; i++ {
+		univ = append(univ, &T{X: x})
+		desc = append(desc, fmt.Sprintf("p%d=&T{%d}", i, x))
+		x += 1 + rng.Intn(40)
+	}
+	return newDom("ptr", univ, desc)
+}
+
 // ---------- printing ----------
 
 func optZ(ok bool, v int64) string { return vhlib.Opt(ok, vhlib.Z(v)) }
@@ -404,7 +462,17 @@ func linkedsetMaker[K comparable]() setMaker[K] {
 	}}
 }
 func treesetMaker[K comparable](cmp bcomparator.Comparator[K]) setMaker[K] {
-	return setMaker[K]{"treeset", "STree", func(safe bool, init []K) setAPI[K] {
+	return treesetShape(cmpShape[K]{"", "CBuiltin", cmp})
+}
+func shapeName(base, shape string) string {
+	if shape == "" {
+		return base
+	}
+	return base + "{cmp " + shape + "}"
+}
+func treesetShape[K comparable](sh cmpShape[K]) setMaker[K] {
+	cmp := sh.f
+	return setMaker[K]{shapeName("treeset", sh.name), "(STree " + sh.coq + ")", func(safe bool, init []K) setAPI[K] {
 		if safe {
 			return treeset.NewSafeWith[K](cmp, init...)
 		}
@@ -595,7 +663,15 @@ func hashbidiMaker[K comparable, V comparable]() bidiMaker[K, V] {
 	}}
 }
 func treebidiMaker[K comparable, V comparable](kc bcomparator.Comparator[K], vc bcomparator.Comparator[V]) bidiMaker[K, V] {
-	return bidiMaker[K, V]{"treebidimap", "BTree", func(safe bool) bidiAPI[K, V] {
+	return treebidiShape(cmpShape[K]{"", "CBuiltin", kc}, cmpShape[V]{"", "CBuiltin", vc})
+}
+func treebidiShape[K comparable, V comparable](ks cmpShape[K], vs cmpShape[V]) bidiMaker[K, V] {
+	kc, vc := ks.f, vs.f
+	name := "treebidimap"
+	if ks.name != "" || vs.name != "" {
+		name = "treebidimap{cmp " + ks.name + " / " + vs.name + "}"
+	}
+	return bidiMaker[K, V]{name, "(BTree " + ks.coq + " " + vs.coq + ")", func(safe bool) bidiAPI[K, V] {
 		if safe {
 			return treebidimap.NewSafeWith[K, V](kc, vc)
 		}
@@ -763,6 +839,9 @@ func main() {
 		dk, dv := newDom("int", []int{0, 1}, []string{"0", "1"}), newDom("int", []int{0, 1}, []string{"0", "1"})
 		runBidi(w, dk, dv, hashbidiMaker[int, int](), false, ops, "exhaustive")
 		runBidi(w, dk, dv, treebidiMaker[int, int](bcomparator.IntComparator(), bcomparator.IntComparator()), false, ops, "exhaustive")
+		// the same words with user comparators whose results are not -1/0/+1, over universes with gaps
+		dk2, dv2 := newDom("int", []int{10, 15}, []string{"10", "15"}), newDom("int", []int{-3, 9}, []string{"-3", "9"})
+		runBidi(w, dk2, dv2, treebidiShape(intShapes()[2], intShapes()[0]), false, ops, "exhaustive")
 	})
 
 	// ---- profiled random streams ----
@@ -787,10 +866,36 @@ func main() {
 	randomBidi(w, rng, func() *dom[string] { return strDom(rng, usize()) }, func() *dom[int] { return intDom(rng, vsize()) },
 		[]bidiMaker[string, int]{hashbidiMaker[string, int](), treebidiMaker[string, int](bcomparator.StringComparator(), bcomparator.IntComparator())}, reps)
 
+	// ---- tree-backed containers built with user comparators (NewWith): a-b, b-a, scaled, struct field of a pointer key ----
+	sreps, sareps := reps/2, areps/2+1
+	var intSets []setMaker[int]
+	for _, sh := range intShapes() {
+		intSets = append(intSets, treesetShape(sh))
+	}
+	randomSets(w, rng, func() *dom[int] { return smallIntDom(rng, usize()) }, intSets, sreps, sareps)
+	var strSets []setMaker[string]
+	for _, sh := range strShapes() {
+		strSets = append(strSets, treesetShape(sh))
+	}
+	randomSets(w, rng, func() *dom[string] { return strDom(rng, usize()) }, strSets, sreps, sareps)
+	var ptrSets []setMaker[*T]
+	for _, sh := range ptrShapes() {
+		ptrSets = append(ptrSets, treesetShape(sh))
+	}
+	randomSets(w, rng, func() *dom[*T] { return ptrFieldDom(rng, usize()) }, ptrSets, sreps, sareps)
+	is, ss, ps := intShapes(), strShapes(), ptrShapes()
+	randomBidi(w, rng, func() *dom[int] { return smallIntDom(rng, usize()) }, func() *dom[int] { return smallIntDom(rng, vsize()) },
+		[]bidiMaker[int, int]{treebidiShape(is[0], is[2]), treebidiShape(is[1], is[0]), treebidiShape(is[2], is[3]), treebidiShape(is[3], is[1])}, sreps)
+	randomBidi(w, rng, func() *dom[string] { return strDom(rng, usize()) }, func() *dom[int] { return smallIntDom(rng, vsize()) },
+		[]bidiMaker[string, int]{treebidiShape(ss[0], is[2]), treebidiShape(ss[1], is[0])}, sreps)
+	randomBidi(w, rng, func() *dom[*T] { return ptrFieldDom(rng, usize()) }, func() *dom[*T] { return ptrFieldDom(rng, vsize()) },
+		[]bidiMaker[*T, *T]{treebidiShape(ps[0], ps[1]), treebidiShape(ps[1], ps[0])}, sreps)
+
 	w.Close(o, "one case = one operation sequence (Put/Add/Remove/Clear, batches of 0-3 items for sets) on one container kind, key type (int, string, "+
 		"pointer with pairs of pointers to equal structs) and plain/Safe variant, snapshotted after every mutation (Size, Empty, Keys, Values, Get/Contains/GetKey over "+
 		"the whole universe, table dump and backward walk of the linked containers), or one set-algebra call with operands built by such sequences and re-read after "+
 		"the call and after mutating result and operands; streams: all words of length 4 (thorough 5) over a 3-key pointer universe (linked map/set) and a 2x2 universe "+
-		"(bidi maps), plus profiled random sequences (churn, put-heavy, delete-heavy, duplicates, ascending, descending, zig-zag, remove-and-re-add); distinct = distinct "+
+		"(bidi maps, built-in and subtracting comparators), plus tree-backed sets / bidi-maps built with user comparators a-b, b-a, (b-a)*7, (a-b)*3, k*strings.Compare and a struct-field "+
+		"comparator on pointer keys over universes with gaps of varying size, plus profiled random sequences (churn, put-heavy, delete-heavy, duplicates, ascending, descending, zig-zag, remove-and-re-add); distinct = distinct "+
 		"case terms; non-trivial = some mutation was applied to a non-empty container (algebra: both operands non-empty)")
 }
